@@ -377,3 +377,48 @@ class LibraryProcess:
         if hash(tuple(map(str, s.ex.decisions))) % 199 == 0:
             rec['sample'] = {'stream': repr(s.stream), 'chunks': list(getattr(s, 'ad', None).chosen) if getattr(s, 'ad', None) else None}
         return rec
+
+
+def confirm_library(run, v):
+    detail = {}
+    ok_all = True
+    for rel in (False, True):
+        o = run.native([{'entry': 'process', 'device': 'T1', 'input': v['input'], 'n': v['n'], 'chunks': v.get('chunks') or [], 'tail': 1}], release=rel)[0]
+        if v['rule'] in ('PANIC', 'HANG'):
+            ok = o.get('panic') is not None
+        else:
+            got_calls = [e[1] for e in o.get('events', []) if e[0] == 'call']
+            writes = [t for t in o.get('trace', []) if t.startswith('w')]
+            pending, order = False, False
+            for t in o.get('trace', []):
+                if t.startswith('w'):
+                    pending = True
+                elif t == 'f':
+                    if not pending:
+                        order = True
+                    pending = False
+                elif t.startswith('r') and pending:
+                    order = True
+            exp_out = v['expected_out']
+            ok = (o.get('panic') is not None or got_calls != v['expected_calls'] or o.get('out') != exp_out or order or o.get('result') == 'ok'
+                  or len(writes) != sum(1 for _ in [1]) * len([1 for m in split_answers(v)]))
+        detail['release' if rel else 'dev'] = {'observation': o, 'reproduced': ok}
+        ok_all = ok_all and ok
+    return ok_all, detail
+
+
+def split_answers(v):
+    """the expected writes: one per answered library message"""
+    stream = bytes.fromhex(v['input'])
+    out = []
+    rest = stream
+    while rest:
+        for msg, calls, ans in sorted(LIBRARY, key=lambda x: -len(x[0])):
+            if rest.startswith(msg):
+                if ans:
+                    out.append(ans)
+                rest = rest[len(msg):]
+                break
+        else:
+            break
+    return out
